@@ -43,13 +43,30 @@ NEEDS = {
  "C13c-receiver-matcher-lru-cache": "two distinct instances that compare equal (same hash), the second selected after the first",
  "C14c-apply-swaps-before-registry": "a method / nested function resolved by reference while a probe is active on it",
  "C17c-overlay-exit-tail-test": "two probes deactivated oldest-first, a stage attached to the older one afterwards, function still instrumented",
+ "C01d-proceed-exit-swallows": "a total (focus-free / immediate=False) rule on the outermost call together with a body that raises",
+ "C02d-nonlifo-exit-by-selector": "two probes given the identical (interned) selector, the one activated first deactivated while the other is still active",
+ "C05d-rollback-undoes-unpushed": "a multi-selector probe whose refused selector is not the last, a later selector naming a function tooled by an earlier finished probe",
+ "C06d-push-skips-apply": "a probe asking only for #exit / #endloop captures that an earlier probe pushed and popped, while another probe keeps the function instrumented",
+ "C07d-probe-type-default-once": "one probe given both a focused and a focus-free selector with probe_type left at its default",
+ "C09d-proceed-exit-order": "a total close function that raises when an instrumented generator finishes, the driver catching it and continuing",
+ "C10d-hashvar-prefix-accepted": "an undocumented meta-variable name that extends a documented one (#values, #enter2)",
+ "C11d-annotation-clobbered": "a tagged binding (parameter or annotated assignment) followed in source order by a plain re-binding of the same name",
+ "C12d-range-bound-truthiness": "a bound equal to 0: every(n) / between(0, b) with a negative value, or an upper bound 0 with a value >= 0",
+ "C15d-equals-merges-value-capture": "the call=value sugar on a call that already captures #value without a value (f(#value as r)=c, (f() as r)=c)",
+ "C16d-tweak-late-binding": "one tweak()/tweaking() call carrying two or more selectors with different values",
+ "C03d-proceed-exit-skips-reset-on-error": "an instrumented function matching a non-final link of a chain raises an Exception that is handled further up, later links are called afterwards",
+ "C04d-override-none-sentinel": "override(None): the constant supplied by an overridable probe is exactly None",
+ "C13d-resolver-unbinds-class-receiver": "obj.meth where obj is itself a class (method of a metaclass reached through one of its instances, classmethod)",
+ "C14d-register-discard-empty-captures": "a function that is a pure path element of a call-path selector (empty capture set) resolved by reference while that probe is active",
+ "C17d-deactivate-guard-derived-handle": "deactivate() called on a derived handle (probe['a'], probe.min()) of a global probe instead of the root",
+ "C18d-expect-message-encode": "a parenthesised comma sequence where a single variable / call is required ((a,b):T, (a,b) > x)",
 }
 rows = []
 for d in sorted(os.listdir(os.path.join(ROOT, "seeded"))):
     p = os.path.join(ROOT, "seeded", d)
-    if not os.path.isdir(p):
+    if not os.path.isdir(p) or (sys.argv[1:] and not any(d.startswith(a) for a in sys.argv[1:])):
         continue
-    prop = d.split("-")[0].rstrip("bc")
+    prop = d.split("-")[0].rstrip("bcdefg")
     subprocess.check_call(["git", "-C", "/repo", "apply", os.path.join(p, "patch.diff")])
     try:
         r = subprocess.run([os.path.join(ROOT, "check"), prop, "quick"], capture_output=True, text=True, cwd=ROOT,
